@@ -161,7 +161,7 @@ theorem tstep_vstep {p : Params} {st : Store} {i : Nat} {t : Thread}
     (h1 : t.pc = .checked → t.loc.ActivationExpiresAt = p.expAt)
     (h2 : (t.pc = .decided ∨ t.pc = .created ∨ t.pc = .rollback) → t.loc.ActivationExpiresAt = p.expAt)
     (h3 : t.pc = .revUpd → t.loc.ActivationExpiresAt = p.expAt) :
-    VStep p st t (tstep .repaired p st i t).1 (tstep .repaired p st i t).2 := by
+    VStep p st t (tstepMain .repaired p st i t).1 (tstepMain .repaired p st i t).2 := by
   have hf := updateRec_fields st t
   have hc := updateRec_code st t
   have hn := updateRec_now st t
@@ -171,13 +171,13 @@ theorem tstep_vstep {p : Params} {st : Store} {i : Nat} {t : Thread}
     simpa [TunnelConnectionCode.IsExpired, Tunnox.PredPrelude.timeAfter, Tunnox.PredPrelude.TimeLike.toTime] using h
   cases hpc : t.pc
   · -- start
-    cases hk : t.kind <;> simp only [tstep, hk, hpc]
+    cases hk : t.kind <;> simp only [tstepMain, hk, hpc]
     · split
       · exact vstep_same hcode (.inr rfl) (fun m hm => by simp at hm)
       · simpa using vstep_claim hcode hpc
     · simpa using vstep_claim hcode hpc
   · -- claimed
-    cases hk : t.kind <;> simp only [tstep, hk, hpc]
+    cases hk : t.kind <;> simp only [tstepMain, hk, hpc]
     · unfold getStepA
       split
       · exact vstep_fail _ hcode (by simp)
@@ -212,7 +212,7 @@ theorem tstep_vstep {p : Params} {st : Store} {i : Nat} {t : Thread}
             · intro _; exact hcode hcr
   · -- checked
     have hl := h1 hpc
-    cases hk : t.kind <;> simp only [tstep, hk, hpc] <;>
+    cases hk : t.kind <;> simp only [tstepMain, hk, hpc] <;>
     · split
       · exact vstep_fail _ hcode (by simp)
       · split
@@ -227,7 +227,7 @@ theorem tstep_vstep {p : Params} {st : Store} {i : Nat} {t : Thread}
           · intro h; simp at h
   · -- decided
     have hl := h2 (.inl hpc)
-    cases hk : t.kind <;> simp only [tstep, hk, hpc] <;>
+    cases hk : t.kind <;> simp only [tstepMain, hk, hpc] <;>
     · split
       · exact vstep_fail _ hcode (by simp)
       · refine ⟨rfl, rfl, hcode, (by intro h; simp [fin] at h), (by intro h; simp [fin] at h), ?_, ?_, ?_, fun m hm => .inl hm⟩
@@ -241,7 +241,7 @@ theorem tstep_vstep {p : Params} {st : Store} {i : Nat} {t : Thread}
       rcases hc with h | h
       · rw [h]; exact hcode (by rw [← hf.2.2.2.2.1]; exact hcr)
       · rw [h]; exact hl
-    cases hk : t.kind <;> simp only [tstep, hk, hpc] <;>
+    cases hk : t.kind <;> simp only [tstepMain, hk, hpc] <;>
     · split
       · exact ⟨rfl, rfl, hcode, by intro h; simp [hpc] at h, by intro h; simp [hpc] at h, by intro h; simp [hpc] at h, fun h => ⟨h2 h, .inl h⟩, h3, fun m hm => .inl hm⟩
       · split
@@ -252,7 +252,7 @@ theorem tstep_vstep {p : Params} {st : Store} {i : Nat} {t : Thread}
           · intro _; exact ⟨hl, .inl (.inr (.inl hpc))⟩
           · intro h; simp at h
   · -- rollback
-    cases hk : t.kind <;> simp only [tstep, hk, hpc] <;>
+    cases hk : t.kind <;> simp only [tstepMain, hk, hpc] <;>
     · split
       · exact ⟨rfl, rfl, hcode, by intro h; simp [hpc] at h, by intro h; simp [hpc] at h, by intro h; simp [hpc] at h, fun h => ⟨h2 h, .inl h⟩, h3, fun m hm => .inl hm⟩
       · refine ⟨rfl, rfl, hcode, (by intro h; simp [fin] at h), (by intro h; simp [fin] at h), ?_, ?_, ?_, fun m hm => .inl hm⟩ <;> (intro h; simp at h)
@@ -263,20 +263,49 @@ theorem tstep_vstep {p : Params} {st : Store} {i : Nat} {t : Thread}
       rcases hc with h | h
       · rw [h]; exact hcode (by rw [← hf.2.2.2.2.1]; exact hcr)
       · rw [h]; exact hl
-    cases hk : t.kind <;> simp only [tstep, hk, hpc] <;>
+    cases hk : t.kind <;> simp only [tstepMain, hk, hpc] <;>
     · split
       · refine ⟨by simp [hn], by simp [hf], by simpa using hcode', (by intro h; simp [fin] at h), (by intro h; simp [fin] at h), ?_, ?_, ?_, fun m hm => by simp [fin] at hm⟩ <;>
           (intro h; simp [fin] at h)
       · refine ⟨hn, hf.2.2.2.2.1, hcode', (by intro h; simp [fin] at h), (by intro h; simp [fin] at h), ?_, ?_, ?_, fun m hm => by simp [fin] at hm⟩ <;>
           (intro h; simp [fin] at h)
   · -- releasing
-    cases hk : t.kind <;> simp only [tstep, hk, hpc] <;>
+    cases hk : t.kind <;> simp only [tstepMain, hk, hpc] <;>
     · split
       · exact vstep_same hcode (.inr rfl) (fun m hm => hm)
       · refine ⟨rfl, rfl, hcode, (by intro h; simp [fin] at h), (by intro h; simp [fin] at h), ?_, ?_, ?_, fun m hm => .inl hm⟩ <;> (intro h; simp at h)
   · -- done
-    cases hk : t.kind <;> simp only [tstep, hk, hpc] <;>
+    cases hk : t.kind <;> simp only [tstepMain, hk, hpc] <;>
     exact vstep_same hcode (.inr hpc) (fun m hm => hm)
+
+/-- a request with another spelling: claim, look-up, release; nothing the prefix invariant talks about moves -/
+theorem tstepO_vstep {p : Params} {st : Store} {t : Thread}
+    (hcode : st.created = true → st.code.ActivationExpiresAt = p.expAt) (ho : OInv t) :
+    VStep p st t (tstepO .repaired st t).1 (tstepO .repaired st t).2 := by
+  have h1 := ho.noOk
+  have hno : ∀ (t' : Thread), (t'.res = t.res ∨ ∃ r, t'.res = some r ∧ ∀ m, r ≠ .ok m) →
+      ∀ m, t'.res = some (.ok m) → t.res = some (.ok m) ∨ t.pc = .created := by
+    intro t' h m hm
+    rcases h with h | ⟨r, h, hr⟩
+    · left; rw [← h]; exact hm
+    · rw [h] at hm; simp at hm; exact absurd hm (hr m)
+  unfold tstepO
+  split
+  · rename_i hpc
+    split
+    · exact ⟨rfl, rfl, hcode, by simp, by simp, by simp, by simp, by simp, hno _ (.inr ⟨_, rfl, by simp⟩)⟩
+    · simp only [↓reduceIte]
+      split
+      · exact ⟨rfl, rfl, hcode, by simp, by simp, by simp, by simp, by simp, hno _ (.inr ⟨_, rfl, by simp⟩)⟩
+      · split
+        · exact ⟨rfl, rfl, hcode, by simp, by simp, by simp, by simp, by simp, hno _ (.inr ⟨_, rfl, by simp⟩)⟩
+        · exact ⟨rfl, rfl, hcode, by simp, fun _ => hpc, by simp, by simp, by simp, hno _ (.inl rfl)⟩
+  · refine ⟨rfl, rfl, hcode, by simp [fin], by simp [fin], by simp [fin], by simp [fin], by simp [fin], ?_⟩
+    apply hno; right; refine ⟨_, rfl, ?_⟩; intro m; split <;> simp
+  · split
+    · exact ⟨rfl, rfl, hcode, by simp, by simp, by simp, by simp, by simp, hno _ (.inl rfl)⟩
+    · exact ⟨rfl, rfl, hcode, by simp, by simp, by simp, by simp, by simp, hno _ (.inl rfl)⟩
+  · exact ⟨rfl, rfl, hcode, by simp, by simp, by simp, by simp, by simp, hno _ (.inl rfl)⟩
 
 theorem expiredIn_of_not_contains (pre : List Ev) (h : pre.contains .create = false) : expiredIn pre = false := by
   simp [expiredIn, dropWhile_nil_of_not_contains pre h]
@@ -343,8 +372,15 @@ theorem vinv_step {p : Params} {pre : List Ev} {c : Config} (e : Ev) (h : VInv p
     | some t =>
       simp only
       have hv := h.th i t hti
-      have vs := tstep_vstep (p := p) (st := c.st) (i := i) (t := t) h.code hi.g.pres
-        (fun hh => (hv.chk hh).1) (fun hh => (hv.dec hh).1) hv.rev
+      have vs : VStep p c.st t (tstep .repaired p c.st i t).1 (tstep .repaired p c.st i t).2 := by
+        by_cases hs : t.spell = 0
+        · have htm : tstep .repaired p c.st i t = tstepMain .repaired p c.st i t := by simp [tstep, hs]
+          rw [htm]
+          exact tstep_vstep (p := p) (st := c.st) (i := i) (t := t) h.code hi.g.pres
+            (fun hh => (hv.chk hh).1) (fun hh => (hv.dec hh).1) hv.rev
+        · have htm : tstep .repaired p c.st i t = tstepO .repaired c.st t := by simp [tstep, hs]
+          rw [htm]
+          exact tstepO_vstep h.code (hi.o i t hti hs)
       have hlt := getElem?_lt hti
       refine ⟨?_, ?_, vs.code, ?_⟩
       · rw [contains_append_th, vs.created]; exact h.created
